@@ -145,7 +145,7 @@ Definition x86_masked_get : ctx_table :=
      ct_sp_acc := ct_sp_acc ctx_x86; ct_ip_acc := ct_ip_acc ctx_x86;
      ct_md_get := ct_md_get ctx_x86; ct_md_valid := ct_md_valid ctx_x86; ct_md_filter := ct_md_filter ctx_x86;
      ct_iter_all := ct_iter_all ctx_x86; ct_iter_some := ct_iter_some ctx_x86; ct_next_slice := ct_next_slice ctx_x86; ct_next_set := ct_next_set ctx_x86;
-     ct_next_val := ct_next_val ctx_x86; ct_md_regs_val := ct_md_regs_val ctx_x86; ct_md_size := ct_md_size ctx_x86;
+     ct_next_val := ct_next_val ctx_x86; ct_md_regs_val := ct_md_regs_val ctx_x86; ct_md_size := ct_md_size ctx_x86; ct_md_fmt := ct_md_fmt ctx_x86;
      ct_fields := ct_fields ctx_x86; ct_gpr := ct_gpr ctx_x86 |}.
 Theorem c18_masked_read_rejected :
   let rf0 : regfile := fun _ _ => 0 in
@@ -171,7 +171,7 @@ Definition x86_loose_validity : ctx_table :=
      ct_sp_acc := ct_sp_acc ctx_x86; ct_ip_acc := ct_ip_acc ctx_x86;
      ct_md_get := ct_md_get ctx_x86; ct_md_valid := ct_md_valid ctx_x86; ct_md_filter := ct_md_filter ctx_x86;
      ct_iter_all := ct_iter_all ctx_x86; ct_iter_some := ct_iter_some ctx_x86; ct_next_slice := ct_next_slice ctx_x86; ct_next_set := ct_next_set ctx_x86;
-     ct_next_val := ct_next_val ctx_x86; ct_md_regs_val := ct_md_regs_val ctx_x86; ct_md_size := ct_md_size ctx_x86;
+     ct_next_val := ct_next_val ctx_x86; ct_md_regs_val := ct_md_regs_val ctx_x86; ct_md_size := ct_md_size ctx_x86; ct_md_fmt := ct_md_fmt ctx_x86;
      ct_fields := ct_fields ctx_x86; ct_gpr := ct_gpr ctx_x86 |}.
 Theorem c18_loose_validity_rejected :
   is_valid x86_loose_validity n_esp (VSome []) = true /\ is_valid ctx_x86 n_esp (VSome []) = false /\
@@ -196,7 +196,7 @@ Definition amd64_nocase : ctx_table :=
      ct_sp_acc := ct_sp_acc ctx_amd64; ct_ip_acc := ct_ip_acc ctx_amd64;
      ct_md_get := ct_md_get ctx_amd64; ct_md_valid := ct_md_valid ctx_amd64; ct_md_filter := ct_md_filter ctx_amd64;
      ct_iter_all := ct_iter_all ctx_amd64; ct_iter_some := ct_iter_some ctx_amd64; ct_next_slice := ct_next_slice ctx_amd64; ct_next_set := ct_next_set ctx_amd64;
-     ct_next_val := ct_next_val ctx_amd64; ct_md_regs_val := ct_md_regs_val ctx_amd64; ct_md_size := ct_md_size ctx_amd64;
+     ct_next_val := ct_next_val ctx_amd64; ct_md_regs_val := ct_md_regs_val ctx_amd64; ct_md_size := ct_md_size ctx_amd64; ct_md_fmt := ct_md_fmt ctx_amd64;
      ct_fields := ct_fields ctx_amd64; ct_gpr := ct_gpr ctx_amd64 |}.
 Theorem c18_case_insensitive_memoize_rejected :
   memoize amd64_nocase n_RIP = Some n_rip /\
@@ -270,7 +270,7 @@ Definition arm_thumb_masked : ctx_table :=
                          (AAnd (AVar n_pc) (ANot (ALit 1) 64)) (AVar n_pc));
      ct_md_get := ct_md_get ctx_arm; ct_md_valid := ct_md_valid ctx_arm; ct_md_filter := ct_md_filter ctx_arm;
      ct_iter_all := ct_iter_all ctx_arm; ct_iter_some := ct_iter_some ctx_arm; ct_next_slice := ct_next_slice ctx_arm; ct_next_set := ct_next_set ctx_arm;
-     ct_next_val := ct_next_val ctx_arm; ct_md_regs_val := ct_md_regs_val ctx_arm; ct_md_size := ct_md_size ctx_arm;
+     ct_next_val := ct_next_val ctx_arm; ct_md_regs_val := ct_md_regs_val ctx_arm; ct_md_size := ct_md_size ctx_arm; ct_md_fmt := ct_md_fmt ctx_arm;
      ct_fields := ct_fields ctx_arm; ct_gpr := ct_gpr ctx_arm |}.
 Theorem c18_masked_accessor_rejected :
   let c := arm_thumb_masked in
@@ -373,6 +373,7 @@ Print Assumptions c18_register_iterator.
    pairs with a name, the register_size arms) denote, for the nine tables, what the property needs:
    memoize_register = the alias arm, else the name itself iff it is in REGISTERS (ALL strings);
    MinidumpContext::registers pairs every name with exactly what the variant's get_register_always returns (same panics);
+   MinidumpContext::format_register (forwarding arm, or a rendering of its own) = the variant's format_register;
    register_size = size_of::<Register>() = 4 or 8 = ct_width / 8 *)
 Theorem c18_generated_bodies : forall c, In c all_contexts ->
   (forall n, memoize c n = match find_arm n (ct_memo c) with
@@ -380,11 +381,12 @@ Theorem c18_generated_bodies : forall c, In c all_contexts ->
                            | None => if mem n (ct_registers c) then Some n else None
                            end) /\
   (forall rf n, md_named c rf n = named c rf n) /\
+  (forall rf n, md_format_register c rf n = format_register c rf n) /\
   md_register_size c = Ret (ct_width c / 8) /\ (ct_width c / 8 = 4 \/ ct_width c / 8 = 8).
 Proof.
   intros c Hc. pose proof (all_facts c Hc) as F.
   split; [exact (memoize_exact c (f_cmp c F) (f_memo_tbl c F))|].
-  split; [exact (md_named_eq c F)|]. split; [exact (md_register_size_eq c F)|].
+  split; [exact (md_named_eq c F)|]. split; [exact (md_format_register_eq c F)|]. split; [exact (md_register_size_eq c F)|].
   destruct (f_width c F) as [W|W]; rewrite W; [left | right]; reflexivity.
 Qed.
 Print Assumptions c18_generated_bodies.
@@ -405,7 +407,7 @@ Definition x86_iter (some : names_src) (skip : Z) : ctx_table :=
      ct_sp_acc := ct_sp_acc ctx_x86; ct_ip_acc := ct_ip_acc ctx_x86;
      ct_md_get := ct_md_get ctx_x86; ct_md_valid := ct_md_valid ctx_x86; ct_md_filter := ct_md_filter ctx_x86;
      ct_iter_all := ct_iter_all ctx_x86; ct_iter_some := some; ct_next_slice := skip; ct_next_set := ct_next_set ctx_x86;
-     ct_next_val := ct_next_val ctx_x86; ct_md_regs_val := ct_md_regs_val ctx_x86; ct_md_size := ct_md_size ctx_x86;
+     ct_next_val := ct_next_val ctx_x86; ct_md_regs_val := ct_md_regs_val ctx_x86; ct_md_size := ct_md_size ctx_x86; ct_md_fmt := ct_md_fmt ctx_x86;
      ct_fields := ct_fields ctx_x86; ct_gpr := ct_gpr ctx_x86 |}.
 Theorem c18_loose_enumeration_rejected :
   let rf : regfile := fun _ _ => 3 in
@@ -552,7 +554,7 @@ Definition sparc_before_fix : ctx_table :=
      ct_fmt_prefix := ct_fmt_prefix ctx_sparc; ct_fmt_zero := ct_fmt_zero ctx_sparc; ct_fmt_mul := ct_fmt_mul ctx_sparc;
      ct_sp_name := ct_sp_name ctx_sparc; ct_ip_name := ct_ip_name ctx_sparc;
      ct_sp_acc := ct_sp_acc ctx_sparc; ct_ip_acc := ct_ip_acc ctx_sparc; ct_iter_all := ct_iter_all ctx_sparc; ct_iter_some := ct_iter_some ctx_sparc; ct_next_slice := ct_next_slice ctx_sparc; ct_next_set := ct_next_set ctx_sparc;
-     ct_next_val := ct_next_val ctx_sparc; ct_md_regs_val := ct_md_regs_val ctx_sparc; ct_md_size := ct_md_size ctx_sparc;
+     ct_next_val := ct_next_val ctx_sparc; ct_md_regs_val := ct_md_regs_val ctx_sparc; ct_md_size := ct_md_size ctx_sparc; ct_md_fmt := ct_md_fmt ctx_sparc;
      ct_fields := ct_fields ctx_sparc;
      ct_md_get := ct_md_get ctx_sparc; ct_md_valid := ct_md_valid ctx_sparc; ct_md_filter := ct_md_filter ctx_sparc;
      ct_gpr := ct_gpr ctx_sparc |}.
